@@ -311,6 +311,8 @@ def unfresh_local_mutations(repo, prefixes):
                 return True
         if isinstance(e, ast.IfExp):
             return fresh(e.body) and fresh(e.orelse)
+        if isinstance(e, ast.Attribute) and isinstance(e.value, ast.Name) and e.value.id == "self":
+            return True          # a local alias of the object's OWN attribute: changing it is changing self.<attr>, which the other rules look at
         return False
 
     def definitions(fi, name):
@@ -442,3 +444,89 @@ def closure_reference_obligations(repo, chk, rule, H=None):
     chk.ob(rule, "visit_FunctionDef:every-variant-references-every-closure-variable", not bad and n_stars > 0, "ptera/transform.py (visit_FunctionDef)",
            f"for every closure variable the prologue of every variant contains a read of it (the interaction when it is instrumented, a bare read otherwise; {n_stars} prologues in {len(paths)} paths), "
            f"so each variant has the free variables of the original and can be installed as its code" + (f": {sorted(set(bad))}" if bad else ""))
+
+
+# ---- argument routing: which value goes where when a binding is recorded / offered for override (data flow the suite never looks at:
+# ---- the names kept next to the values, the category, the order of the arguments handed to handlers)
+def routing_obligations(repo, chk, rule, subset):
+    """subset: "record" (log path: WorkingFrame.log/trigger -> accumulator.log -> Capture.accum/set) or "offer" (intercept path:
+    WorkingFrame.intercept -> BaseAccumulator.intercept -> the wrapped handler).  Every obligation compares the arguments of ONE call
+    with the parameters / loop variables they must be, by role (parameter position), not by spelling."""
+    import ast
+    from ..core import norm, walk_local
+    from ..astq import expand
+
+    def params(fi):
+        return [a.arg for a in fi.node.args.args]
+
+    def calls(fi, pred):
+        return [n for n in walk_local(fi.node) if isinstance(n, ast.Call) and pred(n)]
+
+    def acc_loop(fi):
+        """(element var, accumulator var) of `for <e>, <a> in self.accumulators`"""
+        for n in walk_local(fi.node):
+            if isinstance(n, ast.For) and norm(n.iter) == "self.accumulators" and isinstance(n.target, ast.Tuple) and len(n.target.elts) == 2:
+                return tuple(norm(e) for e in n.target.elts)
+        return (None, None)
+
+    def ob(key, fi, ok, text):
+        chk.ob(rule, f"{fi.qual}:{key}", ok, fi.where, text)
+
+    def args_of(c, fi):
+        return [expand(a, fi.node) for a in c.args] if not c.keywords else None
+    if subset == "record":
+        wl = repo.func("interpret.WorkingFrame.log")
+        e, a = acc_loop(wl)
+        cs = calls(wl, lambda n: isinstance(n.func, ast.Attribute) and n.func.attr == "log" and norm(n.func.value) == a)
+        ob("hands-own-name-category-and-the-value-to-every-accumulator", wl, len(cs) == 1 and args_of(cs[0], wl) == [e, "self.varname", "self.category", params(wl)[1]],
+           f"every matching accumulator is told (element, the frame's variable name, its category, the value bound): {[args_of(c, wl) for c in cs]}")
+        wt = repo.func("interpret.WorkingFrame.trigger")
+        e, a = acc_loop(wt)
+        cs = calls(wt, lambda n: isinstance(n.func, ast.Attribute) and n.func.attr == "trigger" and norm(n.func.value) == a)
+        ob("triggers-with-the-matching-element", wt, len(cs) == 1 and args_of(cs[0], wt) == [e], f"the trigger of an accumulator is called with the element it matched: {[args_of(c, wt) for c in cs]}")
+        for q, meth in (("interpret.Total.log", "accum"), ("interpret.Immediate.log", "set")):
+            fi = repo.func(q)
+            ps = params(fi)
+            cs = calls(fi, lambda n: isinstance(n.func, ast.Attribute) and n.func.attr in ("accum", "set"))
+            ok = len(cs) == 1 and cs[0].func.attr == meth and args_of(cs[0], fi) == [ps[2], ps[4]] and expand(cs[0].func.value, fi.node) in (f"self.getcap({ps[1]})",)
+            ob(f"records-name-and-value-in-the-capture-of-its-element", fi, ok,
+               f"{q} files (variable name, value) -- parameters 2 and 4 -- in the capture of the element it was called for, with `{meth}`: "
+               f"{[(expand(c.func.value, fi.node), c.func.attr, args_of(c, fi)) for c in cs]}")
+        ca = repo.func("interpret.Capture.accum")
+        ps = params(ca)
+        ap = {norm(c.func.value): args_of(c, ca) for c in calls(ca, lambda n: isinstance(n.func, ast.Attribute) and n.func.attr == "append")}
+        ob("name-to-names-value-to-values", ca, ap == {"self.names": [ps[1]], "self.values": [ps[2]]}, f"accum appends the variable name to names and the value to values (parallel lists): {ap}")
+        cset = repo.func("interpret.Capture.set")
+        ps = params(cset)
+        st = {norm(n.targets[0]): norm(n.value) for n in walk_local(cset.node) if isinstance(n, ast.Assign) and len(n.targets) == 1 and isinstance(n.targets[0], ast.Attribute)}
+        ob("name-to-names-value-to-values", cset, st == {"self.names": f"[{ps[1]}]", "self.values": f"[{ps[2]}]"}, f"set replaces names by [name] and values by [value]: {st}")
+        wi = repo.func("interpret.WorkingFrame.__init__")
+        ps = params(wi)
+        st = {norm(n.targets[0]): norm(n.value) for n in walk_local(wi.node) if isinstance(n, ast.Assign) and len(n.targets) == 1 and isinstance(n.targets[0], ast.Attribute)
+              and isinstance(n.value, ast.Name)}
+        ob("keeps-name-key-category", wi, st == {"self.varname": ps[1], "self.key": ps[2], "self.category": ps[3]}, f"the working frame keeps the variable name, key and category it was created with: {st}")
+        wo = repo.func("interpret.Interactor.work_on")
+        ps = params(wo)
+        cs = calls(wo, lambda n: norm(n.func) == "WorkingFrame")
+        ob("frame-created-for-the-variable", wo, len(cs) == 1 and args_of(cs[0], wo) == [ps[1], ps[2], ps[3], "self.accumulators"],
+           f"work_on builds the frame from (name, key, category) and this interactor's accumulators: {[args_of(c, wo) for c in cs]}")
+    if subset == "offer":
+        wi = repo.func("interpret.WorkingFrame.intercept")
+        e, a = acc_loop(wi)
+        cs = calls(wi, lambda n: isinstance(n.func, ast.Attribute) and n.func.attr == "intercept" and norm(n.func.value) == a)
+        ob("offers-own-name-category-and-the-tentative-value", wi, len(cs) == 1 and args_of(cs[0], wi) == [e, "self.varname", "self.category", params(wi)[1]],
+           f"an overriding accumulator is offered (element, the frame's variable name, its category, the tentative value): {[args_of(c, wi) for c in cs]}")
+        bi = repo.func("interpret.BaseAccumulator.intercept")
+        ps = params(bi)
+        sets = calls(bi, lambda n: isinstance(n.func, ast.Attribute) and n.func.attr == "set")
+        caps = [n for n in walk_local(bi.node) if isinstance(n, ast.Call) and norm(n.func) == "Capture"]
+        ok = len(sets) == 1 and args_of(sets[0], bi) == [ps[2], ps[4]] and len(caps) == 1 and args_of(caps[0], bi) == [ps[1]] \
+            and expand(sets[0].func.value, bi.node) in (f"Capture({ps[1]})", norm(sets[0].func.value))
+        ob("tentative-capture-holds-the-variable-name-and-the-tentative-value", bi, ok,
+           f"the capture shown to the override function is a Capture of the matched element holding (variable name, tentative value): set{[args_of(c, bi) for c in sets]} on Capture{[args_of(c, bi) for c in caps]}")
+        nf = repo.func("interpret.BaseAccumulator.__check.new_fn")
+        ps = params(nf)
+        cs = calls(nf, lambda n: isinstance(n.func, ast.Name) and n.func.id not in ("isinstance",))
+        shapes = sorted(tuple(args_of(c, nf) or ["<keywords>"]) for c in cs)
+        ob("handler-receives-the-wrapper's-arguments-in-order", nf, shapes == sorted([tuple(ps[:1]), tuple(ps[:3])]),
+           f"the checked wrapper forwards (results) or, with pass_info, (results, acc, element) -- its own parameters in order: {shapes}")
